@@ -300,7 +300,7 @@ def _attr_tree_of(form, in_init):
     }[form]
     var = shim.var("a", ty, fullname="pkg.m.K.a")
     if in_init:
-        stmt = shim.assignment([shim.member_expr("a", shim.name_expr("self", "self"), node=var)], unanalyzed_type=un)
+        stmt = shim.assignment([shim.member_expr("a", shim.self_expr(), node=var)], unanalyzed_type=un)
         init = shim.func_def("__init__", "pkg.m.K.__init__", [shim.argument("self", shim.ArgKind.ARG_POS, is_self=True)],
                              ret=shim.none_type(), body=[stmt])
         body = [init]
